@@ -242,6 +242,29 @@ Theorem C13_expired_never_during_a_renewal_refuted :
 Proof. exact expired_served_during_later_renewal. Qed.
 Print Assumptions C13_expired_never_during_a_renewal_refuted.
 
+(** ** "the others wait for it" and get what it obtained: a worker's obtain-map channel is closed
+    only from its unblock point, which it reaches through the step that puts the certificate it hands
+    back into the cache (for the renew worker: [C13_new_cert_after_renewal]); a goroutine that
+    re-enters while the cache holds an unexpired certificate is answered with an unexpired one.
+    (History form, evaluated on the implementation by [Check.run_ok]: a handshake answered with the
+    initially cached expired certificate has waited, and an attempt for the name has failed since it was
+    first seen waiting.) *)
+Theorem C13_waiters_of_a_successful_attempt_find_its_result :
+  (forall s t th ch c0 b, t_pc th = PObtLoad ch -> store s (t_name th) = Some c0 ->
+     exists s', thread_step s t th (AStep b) = Some s' /\
+       thr s' t = Some (set_pc th (PObtUnblock ch (RCert (unrevoked c0)))) /\
+       existsb (cert_eqb (unrevoked c0)) (cache s' (t_name th)) = true) /\
+  (forall s t th a s' th' ch, thread_step s t th a = Some s' -> thr s' t = Some th' ->
+     owns_o (t_pc th) = Some ch -> owns_o (t_pc th') <> Some ch ->
+     (exists r, t_pc th = PObtUnblock ch r) \/ (exists c r bg, t_pc th = PRenUnblock ch c r bg)) /\
+  (forall s t th b, t_pc th = PStart false -> (exists x, In x (cache s (t_name th)) /\ expired x = false) ->
+     exists s' y, thread_step s t th (AStep b) = Some s' /\
+       thr s' t = Some (set_pc th (PRet (RCert y))) /\ expired y = false).
+Proof.
+  split; [exact obtain_result_is_cached|split; [exact release_only_from_unblock|exact reentry_gets_unexpired]].
+Qed.
+Print Assumptions C13_waiters_of_a_successful_attempt_find_its_result.
+
 (** the statement shapes of handshake.go that the LTS takes as atomic steps / literals are the
     ones in the source today (read by the translator on every run; a change breaks this proof) *)
 Theorem C13_source_shape_is_the_modelled_one :
